@@ -464,7 +464,7 @@ class VLE(Equilibrium, phases='lg'):
     
     def _set_TV_chemical(self, T, V):
         # Set vapor fraction
-        self._T = self._thermal_condition.T = self._chemical.Psat(T)
+        self._P = self._thermal_condition.P = self._chemical.Psat(T)
         self._vapor_mol[self._index] = V * self._mol_vle
         self._liquid_mol[self._index] = self._mol_vle - self._vapor_mol[self._index]
         
